@@ -130,8 +130,20 @@ def main():
 
     def m_vec_iter(e, m, a):
         v = deref(e, a[0])
-        src = v[1] if isinstance(v, tuple) and v[0] == "slice" else a[0]
-        return ["iter", src, 0]
+        if isinstance(v, tuple) and v[0] == "slice":
+            return ["iter", v[1], v[2] if len(v) > 2 else 0]
+        return ["iter", a[0], 0]
+
+    def m_index_range_from(e, m, a):
+        r, rng = a
+        v = deref(e, r)
+        start = rng[0]
+        base, off = (v[1], v[2] if len(v) > 2 else 0) if isinstance(v, tuple) and v[0] == "slice" else (r, 0)
+        n = len(deref(e, base)[1])
+        if off + start > n:
+            e.violations.append({"kind": "panic", "message": "range start index out of range for slice", "function": "index", "model": None})
+            raise PanicFound("slice index", None)
+        return Ref({0: ("slice", base, off + start)}, 0, ())
 
     def m_iter_next(e, m, a):
         it = deref(e, a[0])
@@ -160,8 +172,14 @@ def main():
         (r"^FunctionContext::<'_>::resolve::<(\w+)>$", m_fctx_resolve),
         (r"^<Vec<Expression> as Deref>::deref$", m_vec_deref),
         (r"^core::slice::<impl \[Expression\]>::get::<usize>$", m_slice_get),
+        (r"^core::slice::<impl \[Expression\]>::first$", lambda e, m, a: m_slice_get(e, m, [a[0], 0])),
+        (r"^core::slice::<impl \[Expression\]>::len$", lambda e, m, a: len(deref(e, a[0][1])[1])),
+        (r"^core::slice::<impl \[Expression\]>::is_empty$", lambda e, m, a: len(deref(e, a[0][1])[1]) == 0),
+        (r"^Vec::<Expression>::is_empty$", lambda e, m, a: len(deref(e, a[0])[1]) == 0),
         (r"^Vec::<Expression>::len$", m_vec_len),
         (r"^<Vec<Expression> as Index<usize>>::index$", m_vec_index),
+        (r"^<(?:Vec<Expression>|\[Expression\]) as Index<std::ops::RangeFrom<usize>>>::index$", m_index_range_from),
+        (r"^<&\[Expression\] as IntoIterator>::into_iter$", m_vec_iter),
         (r"^std::option::Option::<&Expression>::ok_or::<ExecutionError>$", m_option_ok_or),
         (r"^ExecutionError::invalid_argument_count$", m_invalid_argument_count),
         (r"^ExecutionError::missing_argument_or_target$", m_missing),
